@@ -150,6 +150,17 @@ def spell_href(sp, h, form):
     return ('url', up, pre, post, q, h)
 
 
+NAMES = ['nm', 'my sheet', 'a"b', "it's", '{', ';', '/*x*/', 'ü', '', '@import']
+
+
+def spell_name_opt(sp, p=0.25):
+    """the optional name of @media / @import (part of the abstract sheet): (quote, text, gap after it) | None"""
+    r = sp.rng
+    if r.random() >= p:
+        return None
+    return (r.choice(['dq', 'sq']) if sp.level >= 3 else 'dq', r.choice(NAMES), sp.gap())
+
+
 def spell_page_block(sp, inner, decls, margins):
     r = sp.rng
     blk = spell_block(sp, inner, decls)
@@ -172,8 +183,8 @@ def spell_rule(sp, inner, r):
     if k == 'unknown':
         return ('unknown', spell_unknown(sp, inner, r), sp.wgap())
     if k == 'media':
-        return ('media', sp.mask('media', True), sp.gap(need=True), opaque(G.r_mqs(inner, r[1])), sp.gap(), sp.wgap(),
-                [spell_rule(sp, inner, x) for x in r[2]], sp.wgap())
+        return ('media', sp.mask('media', True), sp.gap(need=True), opaque(G.r_mqs(inner, r[1])), sp.gap(),
+                spell_name_opt(sp), sp.wgap(), [spell_rule(sp, inner, x) for x in r[2]], sp.wgap())
     if k == 'fontface':
         return ('fontface', sp.mask('font-face', True), sp.gap(), spell_block(sp, inner, r[1]), sp.wgap())
     if k == 'page':
@@ -195,7 +206,7 @@ def spell_pre(sp, inner, r):
         _, href, form, qs = r
         mq = (opaque(G.r_mqs(inner, qs)), sp.gap()) if qs else None
         return ('import', sp.mask('import', True), sp.gap(need=True), spell_href(sp, href, form),
-                sp.gap(need=bool(mq)), mq, sp.wgap())
+                sp.gap(need=bool(mq)), mq, spell_name_opt(sp), sp.wgap())
     if k == 'namespace':
         _, pre, uri, asurl = r
         pfx = (pre, sp.gap(need=True)) if pre else None
@@ -206,6 +217,25 @@ def spell_pre(sp, inner, r):
     raise ValueError(k)
 
 
+VAR_NAMES = ['c1', 'w', 'main-color', 'x', 'a', 'gap', 'Z9', 'big_width']
+
+
+def spell_var_decl(sp, inner, name, comps):
+    return {'name': name.lower(), 'mask': sp.mask(name.lower()), 'g1': sp.gap(), 'g2': sp.gap(),
+            'value': opaque(G.r_value(inner, comps)), 'g3': sp.gap()}
+
+
+def spell_variables(sp, inner, rng):
+    """one `@variables` rule (an abstract rule made here: distinct names, values of c02_gen)"""
+    names = rng.sample(VAR_NAMES, rng.randint(0, 3))
+    if names and rng.random() < 0.25:
+        names.insert(rng.randint(0, len(names)), rng.choice(names))       # a name declared twice: the later one wins in place
+    decls = [spell_var_decl(sp, inner, n, G.gen_value(rng)) for n in names]
+    last = decls.pop() if decls and rng.random() < 0.5 else None
+    blk = {'lead': sp.gap(), 'items': [(d, sp.gap()) for d in decls], 'last': last}
+    return ('variables', sp.mask('variables', True), sp.gap(), blk, sp.wgap())
+
+
 def supported(ast):
     return list(ast)
 
@@ -214,7 +244,12 @@ def spell_sheet(ast, rng, level, inner_level):
     """-> spelled sheet"""
     sp = Sp(rng, level)
     inner = G.Spelling(random.Random(rng.getrandbits(32)), inner_level) if inner_level else G.Spelling(None)
-    charset, imports, namespaces, rules = None, [], [], []
+    charset, imports, namespaces, variables, rules = None, [], [], [], []
+    if rng.random() < 0.3:
+        for _ in range(rng.choice([1, 1, 2])):
+            if level >= 2 and rng.random() < 0.2:
+                variables.append(('comment', ' before variables ', sp.wgap()))
+            variables.append(spell_variables(sp, inner, rng))
     for r in ast:
         k = r[0]
         if k == 'charset':
@@ -229,7 +264,8 @@ def spell_sheet(ast, rng, level, inner_level):
             namespaces.append(spell_pre(sp, inner, r))
         else:
             rules.append(spell_rule(sp, inner, r))
-    return {'charset': charset, 'lead': sp.wgap(), 'imports': imports, 'namespaces': namespaces, 'rules': rules}
+    return {'charset': charset, 'lead': sp.wgap(), 'imports': imports, 'namespaces': namespaces,
+            'variables': variables, 'rules': rules}
 
 
 def wellformed(ss):
@@ -245,7 +281,7 @@ def wellformed(ss):
         if k == 'unknown':
             return is_core(r[1])
         if k == 'media':
-            return is_core(r[3]) and all(rule_ok(x) for x in r[6])
+            return is_core(r[3]) and all(rule_ok(x) for x in r[7])
         if k == 'fontface':
             return block_ok(r[3])
         if k == 'page':
@@ -261,6 +297,12 @@ def wellformed(ss):
     for i in ss['imports']:
         if i[0] == 'import' and i[5] and not is_core(i[5][0]):
             return False
+    for v in ss.get('variables', ()):
+        if v[0] == 'variables':
+            ds = [d for d, _ in v[3]['items']] + ([v[3]['last']] if v[3]['last'] else [])
+            # `SVarDecl.WF`: a core that does not start with a comment
+            if not all(is_core(d['value']) and d['value']['toks'][0][0] not in ('S', 'COMMENT') for d in ds):
+                return False
     return all(rule_ok(r) for r in ss['rules'])
 
 
@@ -318,6 +360,10 @@ def t_href(h):
     return word + '(' + pre + (t_quote(q, txt) if q else txt) + post + ')'
 
 
+def t_name(nm):
+    return (t_quote(nm[0], nm[1]) + t_gap(nm[2])) if nm else ''
+
+
 def t_page_item(it):
     if it[0] == 'margin':
         _, n, m, g, blk, w = it
@@ -348,8 +394,8 @@ def t_rule(r):
     if k == 'unknown':
         return r[1]['text'] + t_wgap(r[2])
     if k == 'media':
-        _, m, g1, mq, g2, lead, rules, w = r
-        return '@' + spell_name('media', m) + t_gap(g1) + mq['text'] + t_gap(g2) + '{' + t_wgap(lead) + \
+        _, m, g1, mq, g2, nm, lead, rules, w = r
+        return '@' + spell_name('media', m) + t_gap(g1) + mq['text'] + t_gap(g2) + t_name(nm) + '{' + t_wgap(lead) + \
             ''.join(t_rule(x) for x in rules) + '}' + t_wgap(w)
     if k == 'fontface':
         _, m, g1, blk, w = r
@@ -365,9 +411,9 @@ def t_pre(r):
     if k == 'comment':
         return '/*' + r[1] + '*/' + t_wgap(r[2])
     if k == 'import':
-        _, m, g1, href, g2, mq, w = r
+        _, m, g1, href, g2, mq, nm, w = r
         return '@' + spell_name('import', m) + t_gap(g1) + t_href(href) + t_gap(g2) + \
-            ((mq[0]['text'] + t_gap(mq[1])) if mq else '') + ';' + t_wgap(w)
+            ((mq[0]['text'] + t_gap(mq[1])) if mq else '') + t_name(nm) + ';' + t_wgap(w)
     if k == 'namespace':
         _, m, g1, pfx, uri, g2, w = r
         return '@' + spell_name('namespace', m) + t_gap(g1) + ((pfx[0] + t_gap(pfx[1])) if pfx else '') + \
@@ -375,10 +421,24 @@ def t_pre(r):
     raise ValueError(k)
 
 
+def t_var_decl(d):
+    return spell_name(d['name'], d['mask']) + t_gap(d['g1']) + ':' + t_gap(d['g2']) + d['value']['text'] + t_gap(d['g3'])
+
+
+def t_var(r):
+    if r[0] == 'comment':
+        return '/*' + r[1] + '*/' + t_wgap(r[2])
+    _, m, g0, blk, w = r
+    body = t_gap(blk['lead']) + ''.join(t_var_decl(d) + ';' + t_gap(g) for d, g in blk['items']) + \
+        (t_var_decl(blk['last']) if blk['last'] else '')
+    return '@' + spell_name('variables', m) + t_gap(g0) + '{' + body + '}' + t_wgap(w)
+
+
 def text(ss):
     cs = ('@charset ' + t_quote(*ss['charset']) + ';') if ss['charset'] else ''
     return cs + t_wgap(ss['lead']) + ''.join(t_pre(r) for r in ss['imports']) + \
-        ''.join(t_pre(r) for r in ss['namespaces']) + ''.join(t_rule(r) for r in ss['rules'])
+        ''.join(t_pre(r) for r in ss['namespaces']) + ''.join(t_var(r) for r in ss.get('variables', ())) + \
+        ''.join(t_rule(r) for r in ss['rules'])
 
 
 # -- s-expression for the driver --------------------------------------------------------------------------
@@ -451,6 +511,10 @@ def x_opt(v):
     return enc(v) if v is not None else 'none'
 
 
+def x_name(nm):
+    return '( %s %s %s )' % (nm[0], enc(nm[1]), x_gap(nm[2])) if nm else 'none'
+
+
 def x_page_item(it):
     if it[0] == 'margin':
         _, n, m, g, blk, w = it
@@ -472,9 +536,9 @@ def x_rule(r):
     if k == 'unknown':
         return '( unknown %s %s )' % (x_toks(r[1]), x_wgap(r[2]))
     if k == 'media':
-        _, m, g1, mq, g2, lead, rules, w = r
-        return '( media %s %s %s %s %s ( %s ) %s )' % (x_mask(m), x_gap(g1), x_toks(mq), x_gap(g2), x_wgap(lead),
-                                                     ' '.join(x_rule(x) for x in rules), x_wgap(w))
+        _, m, g1, mq, g2, nm, lead, rules, w = r
+        return '( media %s %s %s %s %s %s ( %s ) %s )' % (x_mask(m), x_gap(g1), x_toks(mq), x_gap(g2), x_name(nm),
+                                                        x_wgap(lead), ' '.join(x_rule(x) for x in rules), x_wgap(w))
     if k == 'fontface':
         _, m, g1, blk, w = r
         return '( fontface %s %s %s %s )' % (x_mask(m), x_gap(g1), x_block(blk), x_wgap(w))
@@ -490,9 +554,10 @@ def x_pre(r):
     if k == 'comment':
         return '( comment %s %s )' % (enc(r[1]), x_wgap(r[2]))
     if k == 'import':
-        _, m, g1, href, g2, mq, w = r
+        _, m, g1, href, g2, mq, nm, w = r
         xm = '( %s %s )' % (x_toks(mq[0]), x_gap(mq[1])) if mq else 'none'
-        return '( import %s %s %s %s %s %s )' % (x_mask(m), x_gap(g1), x_href(href), x_gap(g2), xm, x_wgap(w))
+        return '( import %s %s %s %s %s %s %s )' % (x_mask(m), x_gap(g1), x_href(href), x_gap(g2), xm, x_name(nm),
+                                                    x_wgap(w))
     if k == 'namespace':
         _, m, g1, pfx, uri, g2, w = r
         xp = '( %s %s )' % (enc(pfx[0]), x_gap(pfx[1])) if pfx else 'none'
@@ -500,11 +565,26 @@ def x_pre(r):
     raise ValueError(k)
 
 
+def x_var_decl(d):
+    return '( %s %s %s %s %s %s )' % (enc(d['name']), x_mask(d['mask']), x_gap(d['g1']), x_gap(d['g2']),
+                                      x_toks(d['value']), x_gap(d['g3']))
+
+
+def x_var(r):
+    if r[0] == 'comment':
+        return '( comment %s %s )' % (enc(r[1]), x_wgap(r[2]))
+    _, m, g0, blk, w = r
+    xb = '( %s ( %s ) %s )' % (x_gap(blk['lead']), ' '.join('( %s %s )' % (x_var_decl(d), x_gap(g)) for d, g in blk['items']),
+                               x_var_decl(blk['last']) if blk['last'] else 'none')
+    return '( variables %s %s %s %s )' % (x_mask(m), x_gap(g0), xb, x_wgap(w))
+
+
 def sx(ss):
     cs = '( %s %s )' % (ss['charset'][0], enc(ss['charset'][1])) if ss['charset'] else 'none'
-    return '%s %s ( %s ) ( %s ) ( %s )' % (cs, x_wgap(ss['lead']), ' '.join(x_pre(r) for r in ss['imports']),
-                                          ' '.join(x_pre(r) for r in ss['namespaces']),
-                                          ' '.join(x_rule(r) for r in ss['rules']))
+    return '%s %s ( %s ) ( %s ) ( %s ) ( %s )' % (cs, x_wgap(ss['lead']), ' '.join(x_pre(r) for r in ss['imports']),
+                                                 ' '.join(x_pre(r) for r in ss['namespaces']),
+                                                 ' '.join(x_var(r) for r in ss.get('variables', ())),
+                                                 ' '.join(x_rule(r) for r in ss['rules']))
 
 
 # -- erase: the abstract sheet, in the JSON shape of the driver ------------------------------------------
@@ -558,7 +638,8 @@ def e_rule(r):
     if k == 'unknown':
         return {'k': 'unknown', 'toks': j_toks(r[1], True)}
     if k == 'media':
-        return {'k': 'media', 'mq': j_toks(r[3]), 'name': None, 'rules': [e_rule(x) for x in r[6]]}
+        return {'k': 'media', 'mq': j_toks(r[3]), 'name': enc(r[5][1]) if (r[5] and r[5][1]) else None,
+                'rules': [e_rule(x) for x in r[7]]}
     if k == 'fontface':
         return {'k': 'fontface', 'items': e_block(r[3])}
     if k == 'page':
@@ -575,12 +656,30 @@ def e_pre(r):
     if k == 'comment':
         return {'k': 'comment', 'body': enc(r[1])}
     if k == 'import':
-        return {'k': 'import', 'href': enc(r[3][-1]), 'mq': j_toks(r[5][0]) if r[5] else None, 'name': None}
+        return {'k': 'import', 'href': enc(r[3][-1]), 'mq': j_toks(r[5][0]) if r[5] else None,
+                'name': enc(r[6][1]) if (r[6] and r[6][1]) else None}
     if k == 'namespace':
         return {'k': 'namespace', 'pfx': enc(r[3][0] if r[3] else ''), 'uri': enc(r[4][-1])}
     raise ValueError(k)
 
 
+def e_var(r):
+    if r[0] == 'comment':
+        return {'k': 'comment', 'body': enc(r[1])}
+    blk = r[3]
+    ds = [d for d, _ in blk['items']] + ([blk['last']] if blk['last'] else [])
+    out = []            # `SVarBlock.erase`: a name declared again takes the place of its first declaration
+    for d in ds:
+        v = {'name': enc(d['name']), 'value': j_toks(d['value'])}
+        hit = [i for i, e in enumerate(out) if e['name'] == v['name']]
+        if hit:
+            out[hit[0]] = v
+        else:
+            out.append(v)
+    return {'k': 'variables', 'vars': out}
+
+
 def erase(ss):
     cs = [{'k': 'charset', 'enc': enc(ss['charset'][1])}] if ss['charset'] else []
-    return cs + [e_pre(r) for r in ss['imports']] + [e_pre(r) for r in ss['namespaces']] + [e_rule(r) for r in ss['rules']]
+    return cs + [e_pre(r) for r in ss['imports']] + [e_pre(r) for r in ss['namespaces']] + \
+        [e_var(r) for r in ss.get('variables', ())] + [e_rule(r) for r in ss['rules']]
